@@ -296,6 +296,10 @@ package ipfix
 // Dump marshals every shard by reflection: all shards must be read-locked across json.Marshal (C10, C15)
 //@ func (MemCache).Dump
 //@   requires wellFormed(m)
+//@   loop 1
+//@     acquires m R
+//@   loop 2
+//@     releases m
 
 //@ func NewRPC
 //@   ensures result != nil && result.mCache == mCache
